@@ -11,10 +11,13 @@ suite_ok = bool(suite) and 'FAIL' not in suite.group(1) and 'ok' in suite.group(
 demo_fails = bool(demo) and 'FAIL' in demo.group(1)
 pristine_ok = bool(pristine) and 'FAIL' not in pristine.group(1)
 status = 'detected' if res and res[0].startswith('VIOLATION') else ('missed' if res and res[0].startswith('OK') else 'inconclusive')
+prev = m.get('confirmed', {})
 m['confirmed'] = {
   'by': 'tools/seed_verify.sh in a scratch worktree of /repo HEAD',
   'pristine_demo_passes': pristine_ok, 'suite_passes_with_patch': suite_ok, 'demo_fails_with_patch': demo_fails,
-  'status': status, 'check_result': (res[0][:300] if res else ''), 'strengthening': '',
+  'status': status, 'check_result': (res[0][:300] if res else ''), 'strengthening': (sys.argv[3] if len(sys.argv) > 3 else ''),
 }
+if prev.get('status') in ('missed', 'inconclusive') or prev.get('first_result'):
+    m['confirmed']['first_result'] = prev.get('first_result') or (prev.get('status', '') + ': ' + prev.get('check_result', ''))
 json.dump(m, open(d + '/meta.json', 'w'), indent=1)
 print(f"{d}: {status} pristine_ok={pristine_ok} suite_ok={suite_ok} demo_fails={demo_fails}")
